@@ -25,6 +25,9 @@ fn main() {
     if std::env::var("VERIF_VERBOSE").is_err() {
         std::panic::set_hook(Box::new(|_| {}));
     }
+    // like an application, the checking process has a logger (statements inside the library's log calls only run
+    // then); run_proptest silences it for a quarter of its cases
+    install_logger();
     let id = args[1].clone();
     if id == "--worker" {
         std::process::exit(props::worker_main(&args[2..]));
@@ -97,7 +100,7 @@ fn main() {
         for (i, c) in cases.iter().enumerate() {
             // the driver attributes an interpreter error (UB) to the last announced case
             eprintln!("CORPUS-CASE {i}");
-            if let Err(m) = (prop.replay)(c) {
+            if let Err(m) = replay_with_logging(c, &|v| (prop.replay)(v)) {
                 println!("CORPUS-FAIL {i} {m}");
                 bad += 1;
             }
@@ -121,7 +124,7 @@ fn main() {
             eprintln!("bad json {file}: {e}");
             std::process::exit(2)
         });
-        match (prop.replay)(&v) {
+        match replay_with_logging(&v, &|v| (prop.replay)(v)) {
             Ok(()) => {
                 println!("replay {file}: property holds on this case");
                 std::process::exit(0);
@@ -155,7 +158,7 @@ fn main() {
                 }
             }
             replayed += 1;
-            if let Err(m) = (prop.replay)(&v) {
+            if let Err(m) = replay_with_logging(&v, &|v| (prop.replay)(v)) {
                 let sig = v.get("signature").and_then(|s| s.as_str()).unwrap_or("replay").to_string();
                 if ctx.is_known(&sig) {
                     continue; // reported below as KNOWN-FINDING by the main run
